@@ -6,6 +6,15 @@ NOTES = ('All checks are ./check <id>; each rebuilds a source-only overlay from 
 NOT_CLAIMED = {}
 
 PROPS = {
+    'C12': {
+        'modules': ['contracts.C12_media'],
+        'level': 'proof',
+        'level_text': 'Parse-at-most-once automaton of Request.get_media / media (WSGI and ASGI) as a class invariant over (_media, _media_error) with a ghost '
+                      'event trace of handler / registry / stream calls: any history of calls holds by induction; JSON and URL-encoded handler error mapping '
+                      '(empty -> MediaNotFoundError, undecodable -> MediaMalformedError 400), serialisation plumbing, response media render cache.',
+        'level_note': 'The JSON / form round-trip equalities themselves are an assumed dependency contract of the stdlib json module and of '
+                      'parse_query_string/urlencode (C08/C10); only the plumbing around them is proved. Handler, registry and stream are stubs (C07, C11 contracts).',
+    },
     'C03': {
         'modules': ['contracts.C03_middleware'],
         'level': 'proof',
